@@ -17,7 +17,7 @@ import (
 )
 
 func main() {
-	Main(map[string]PropFunc{"C02": run, "C07": run, "C08": run, "C10": run})
+	Main(map[string]PropFunc{"C02": run, "C07": run, "C08": run, "C10": run, "C14": run})
 }
 
 type cfgCase struct {
@@ -439,7 +439,7 @@ func run(ctx *Ctx) *Result {
 		var states []*iosDev
 		for i, cmd := range cmds {
 			if err := ex.exec1(cmd); err != nil {
-				if prop != "C07" {
+				if prop != "C07" && prop != "C14" {
 					res.Fail(sig("command_rejected_by_strict_device"), fmt.Sprintf("command %d %q: %v", i, cmd, err), c)
 				}
 				return
@@ -469,6 +469,44 @@ func run(ctx *Ctx) *Result {
 			}
 			if len(cmds) == 0 && c.dev.managedView(intfs, rvrfs, withRoutes) != wantView {
 				res.Fail(sig("unchanged_reported_for_different_device"), "empty script although the device is not equivalent", c)
+			}
+		}
+		if prop == "C14" {
+			dsts := func(d *iosDev) map[string]bool {
+				m := map[string]bool{}
+				for _, r := range d.Routes {
+					f := strings.Fields(r)
+					if len(f) >= 5 && f[0] == "vrf" {
+						m[f[1]+" "+f[2]+" "+f[3]] = true
+					} else if len(f) >= 3 {
+						m[" "+f[0]+" "+f[1]] = true
+					}
+				}
+				return m
+			}
+			before, after := dsts(c.dev), dsts(final)
+			joinedFirst := map[int]bool{}
+			idx := 0
+			for _, line := range strings.Split(strings.TrimSuffix(out, "\n"), "\n") {
+				if line == "" {
+					continue
+				}
+				h := strings.Split(line, "\\N ")
+				if len(h) == 2 {
+					joinedFirst[idx] = true
+				}
+				idx += len(h)
+			}
+			for k, st := range states {
+				if joinedFirst[k] {
+					continue
+				}
+				now := dsts(st)
+				for d := range before {
+					if after[d] && !now[d] {
+						res.Fail(sig("route_destination_uncovered_during_change"), fmt.Sprintf("after command %d destination %s has no route although it has one before and after", k, d), c)
+					}
+				}
 			}
 		}
 		if prop == "C07" {
